@@ -48,7 +48,7 @@ from stepup.core.sqlite3 import DBSession
 
 __all__ = (
     "BuildResult", "E3Error", "E3Timeout", "Project", "WatchSession", "apply_edit", "build",
-    "build_forked", "build_subprocess", "canon_graph", "diff_results", "from_scratch", "install", "parse_graph",
+    "build_forked", "build_subprocess", "canon_graph", "content_digest", "diff_results", "from_scratch", "install", "parse_graph",
     "pool_map", "run_history", "scratch_of_history", "uninstall",
 )
 
@@ -105,6 +105,10 @@ def write_file(path: str, content: str, *, executable: bool | None = None, old_m
 
 def _digest(content: str | None) -> str | None:
     return None if content is None else hashlib.sha256(content.encode("utf-8")).hexdigest()[:16]
+
+
+content_digest = _digest
+"""Digest used in read/write logs: first 16 hex digits of sha256 of the text (None: missing)."""
 
 
 def _read_text(path: str) -> str | None:
